@@ -83,6 +83,12 @@ func (s *Server) Serve(listeners []net.Listener) error {
 		return ErrServerClosed
 	default:
 	}
+	if s.serving {
+		// starting the peers a second time would run two managers per peer
+		// and make the shutdown close doneServingCh twice
+		s.mu.Unlock()
+		return errors.New("server is already serving")
+	}
 
 	// set serving state and enable peers
 	s.serving = true
